@@ -918,7 +918,19 @@ func emitScenario(out *hx.Out, r *hx.Rng, sc *Scenario) {
 		fresh, _ := account.NewAccountDB(nr, t)
 		df := fmt.Sprintf(" df=%d:%d", utility.ByteToUInt64(fresh.GetData(common.DifficultyAddress, castorBytes(sc))),
 			utility.ByteToUInt64(fresh.GetData(common.DifficultyAddress, common.TotalWorkingMiners)))
-		return "ev=" + strings.Join(ev, ",") + " rc=" + strings.Join(rc, ",") + " " + dump(fresh, wl, el, append(append([]MinerS{}, sc.Miners...), appliedMiners(sc)...)) + df
+		// the receipts root as the node computes it (blocks without EVM / node transactions: their receipts
+		// carry logs, gas and contract addresses the model does not render)
+		rr := " rr=-"
+		plainRc := true
+		for _, x := range sc.Txs {
+			if x.Type == 200 || x.Type == 188 || x.Type == 7 {
+				plainRc = false
+			}
+		}
+		if plainRc {
+			rr = " rr=" + hx.Hex(core.VerifC01ReceiptsRoot(o.receipts).Bytes())
+		}
+		return "ev=" + strings.Join(ev, ",") + " rc=" + strings.Join(rc, ",") + " " + dump(fresh, wl, el, append(append([]MinerS{}, sc.Miners...), appliedMiners(sc)...)) + df + rr
 	})
 }
 
